@@ -242,6 +242,16 @@ func checkFastaRecords(c *Ctx, pc *ssa.Function, out *ssa.Parameter) {
 			if len(opaqueParts(l, vocabOf(wantName, "const[0]"))) == 0 && localDiff(l, wantName) {
 				st = broken
 			}
+			// the text after the marker taken as the second piece of the header split at EVERY marker: a name that
+			// contains the marker again is cut there
+			if nl := normText(l); nl.Op == "index" && len(nl.Args) == 2 && nl.Args[0].isCall("strings.Split") && len(nl.Args[0].Args) == 2 {
+				if sep, isK := nl.Args[0].Args[1].constStr(); isK && sep == ">" {
+					if k, isI := nl.Args[1].constInt(); isI && k == 1 {
+						st = broken
+						ls = ls + " (the header split at every '>': a name that contains '>' is cut short there)"
+					}
+				}
+			}
 			if stN == holds || st == broken {
 				stN, whyN = st, "a record's name may be "+short(ls)+"; want the header line minus its first byte, unchanged"
 			}
